@@ -7,7 +7,7 @@ import layoutlib as L
 import vlib
 
 MANIFEST = {
-    "text": "Pairs of generated fragments over disjoint slot sets are analysed separately and together behind a dispatcher (two dispatcher shapes); an injective renumbering of the slot constants (small to small, small to > 2^128, changing PUSH widths) is applied to one fragment. The four layouts of each case are compared INSIDE Coq: layout(A+B) must be the sorted union of layout(A) and layout(B), and layout(rename A) must be the renamed layout(A) with unchanged types and offsets. Registration is modelled (Register.v) and proved for ALL value lists: every sub-term gets a variable (register_covers_subterms), the same stable value shares one typed node (register_stable_shared), a value without stable part gets only fresh variables (register_unstable_fresh), and two registered values without a common stable sub-term share no type variable (register_disjoint) -- so evidence of unrelated slots lives on disjoint variables; invariance under permutation of the value list is proved in full (register_order in props/C02_register.v: the registered states are equal up to a bijective renaming of type variables) and evaluated on the implementation (check_order). At the unification stage locality is PROVED on the order-free fragment (props/C11_unify.v, fragment coq/UnifyOrder.v: no packed encodings, homogeneous congruence-closure classes): C11_unify_disjoint_union -- for variable-disjoint judgement sets side by side, under ANY iteration orders, all runs return, two variables of a part share a class in the whole iff they do in the part alone, variables of different parts never share a class, and every variable gets the same type as in its part alone; C11_closure_disjoint_union proves the congruence closure local for all disjoint judgement sets; C11_unify_packed_fresh_names_refuted shows that with packed encodings the NAMES of fresh span variables depend on the other fragment (one global counter). Equivariance of unification under renaming is not proved: decided by the metamorphic search (partial).",
+    "text": "Pairs of generated fragments over disjoint slot sets are analysed separately and together behind a dispatcher (two dispatcher shapes) or composed sequentially on ONE path (no dispatcher: the fragments share call-data arguments, scratch memory and environment reads); an injective renumbering of the slot constants (small to small, small to > 2^128, changing PUSH widths) is applied to one fragment. The four layouts of each case are compared INSIDE Coq: layout(A+B) must be the sorted union of layout(A) and layout(B), and layout(rename A) must be the renamed layout(A) with unchanged types and offsets. Registration is modelled (Register.v) and proved for ALL value lists: every sub-term gets a variable (register_covers_subterms), the same stable value shares one typed node (register_stable_shared), a value without stable part gets only fresh variables (register_unstable_fresh), and two registered values without a common stable sub-term share no type variable (register_disjoint) -- so evidence of unrelated slots lives on disjoint variables; invariance under permutation of the value list is proved in full (register_order in props/C02_register.v: the registered states are equal up to a bijective renaming of type variables) and evaluated on the implementation (check_order). At the unification stage locality is PROVED on the order-free fragment (props/C11_unify.v, fragment coq/UnifyOrder.v: no packed encodings, homogeneous congruence-closure classes): C11_unify_disjoint_union -- for variable-disjoint judgement sets side by side, under ANY iteration orders, all runs return, two variables of a part share a class in the whole iff they do in the part alone, variables of different parts never share a class, and every variable gets the same type as in its part alone; C11_closure_disjoint_union proves the congruence closure local for all disjoint judgement sets; C11_unify_packed_fresh_names_refuted shows that with packed encodings the NAMES of fresh span variables depend on the other fragment (one global counter). Equivariance of unification under renaming is not proved: decided by the metamorphic search (partial).",
     "note": "Trusted: Coq kernel for the comparison; the fragment generator and renamer (tools/gen.py); harness.",
     "technique": "metamorphic search (union of independent fragments, injective slot renaming) with the comparison evaluated inside Coq; "
                  "stage lemmas partial",
@@ -29,7 +29,7 @@ def check(ctx):
         slots = rng.sample(small + big[:6], na + nb)
         va = gen.random_vars(rng, na, slots=slots[:na])
         vb = gen.random_vars(rng, nb, slots=slots[na:])
-        disp = rng.choice(["selector", "chain"])
+        disp = rng.choice(["selector", "chain", "sequence"])
         # injective renaming of A's slots (keeps away from A's own numbers to stay injective)
         targets = rng.sample([t for t in small + big if t not in slots[:na]], na)
         rho = dict(zip(slots[:na], targets))
@@ -58,7 +58,7 @@ def check(ctx):
             rho = ";".join("(%d,%d)" % kv for kv in case[4].items())
             terms.append(L.hexify("mk_c11case (%s) (%s) (%s) [%s] (%s)" % (a, b, ab, rho, ar)))
         bad = vlib.run_cases(ctx, "locality", L.HEADER, terms, per_shard=max(1, len(terms) // 32 + 1), fn="check_c11")
-        names = {76: "the layout of two independent fragments behind a dispatcher is not the union of their layouts",
+        names = {76: "the layout of two independent fragments (behind a dispatcher, or one after the other on one path) is not the union of their layouts",
                  77: "renumbering the slot constants changed more than the slot indices", 78: "panic",
                  79: "a fragment fails on its own but succeeds behind a dispatcher next to an unrelated fragment"}
         for idx, code in bad:
